@@ -6,12 +6,14 @@ import numpy as np
 from .. import cases, monitors
 
 TITLE = "Corpus shuffling yields valid corpora and each perturbation is confined"
-DECIDING = ["M-CORPUS", "M-CONFINED", "M-MAGNITUDE-0", "M-INV"]
+DECIDING = ["M-CORPUS", "M-CONFINED", "M-MAGNITUDE-0", "M-INV", "M-MAGNITUDE-HISTORY"]
 LEVEL = "exploration"
 RULE = ("seeded random single-annotator labelled references (1-40 units, durations >= 1, six segment families) x magnitude "
         "in {0, 1} U U(0,1) x annotator counts 1-5 or name lists x extra categories; per reference: each perturbation "
         "applied alone to corpus_from_reference(...) (shift, false negatives, false positives, category shuffle with and "
-        "without prevalence / overlap function, splits) and all 32 flag combinations through corpus_shuffle, with and "
+        "without prevalence / overlap function, splits), each perturbation again on a corpus already changed by another "
+        "one (confinement is judged against the corpus it was given), all 32 flag combinations through corpus_shuffle, "
+        "then the same tool object with its public magnitude attribute changed (to 0 or another value), with and "
         "without include_ref; the icontract class invariant on Continuum (M-INV) and a purity snapshot of the reference "
         "are active. non-trivial = reference with >= 2 units; distinct by SHA-1 of (reference, magnitude, annotators, seed)")
 ASSUMPTIONS = [
@@ -109,59 +111,76 @@ def check_case(ctx, case):
                      ("category-prevalence", lambda c: cst.category_shuffle(c, prevalence=True)),
                      ("category-overlap", lambda c: cst.category_shuffle(c, overlapping_fun=lambda a, b: 1.0 if a == b else 0.5)),
                      ("split", lambda c: cst.splits_shuffle(c))]
-    for pname, fn in perturbations:
-        corpus = fresh()
+    def check_perturbation(pname, fn, corpus, m_now, context):
+        """Applies one perturbation to `corpus` and checks that it changed only what it names, relative to the corpus it
+        was given (a fresh copy of the reference, or a corpus already perturbed by something else)."""
+        before_u = units_by_annotator(corpus)
         try:
             with spy.recording(limit=2000000) as log:
                 fn(corpus)
         except Exception as e:
             ctx.fail_exc(f"{pname}:raises:{type(e).__name__}", e, monitor="M-CONFINED")
-            continue
-        got = check_valid_corpus(ctx, corpus, names, ref_units, allowed, pname)
+            return
+        got = check_valid_corpus(ctx, corpus, names, ref_units, allowed, pname + context)
         ctx.count("M-CONFINED")
+        ctx.observe("perturbation_context", context or "fresh")
         for a in names:
             us = got.get(a, [])
-            det = {"perturbation": pname, "annotator": a, "magnitude": m, "reference_units": n_ref, "result_units": len(us)}
-            if m == 0:
+            b = before_u.get(a, [])
+            det = {"perturbation": pname, "context": context or "fresh copy of the reference", "annotator": a, "magnitude": m_now,
+                   "reference_units": n_ref, "units_before": len(b), "result_units": len(us)}
+            if m_now == 0:
                 ctx.count("M-MAGNITUDE-0")
-                if us != ref_units:
-                    ctx.fail(f"{pname}:magnitude-0-is-not-an-exact-copy", dict(det, got=us[:5], reference=ref_units[:5]),
-                             monitor="M-MAGNITUDE-0")
+                if us != b:
+                    ctx.fail(f"{pname}:magnitude-0-is-not-an-exact-copy", dict(det, got=us[:5], before=b[:5]), monitor="M-MAGNITUDE-0")
                     break
             if pname.startswith("category"):
-                if sorted({(s, e) for s, e, _ in us}) != sorted({(s, e) for s, e, _ in ref_units}):
+                if sorted({(s_, e_) for s_, e_, _ in us}) != sorted({(s_, e_) for s_, e_, _ in b}):
                     ctx.fail("category-shuffle-changed-the-segments", det, monitor="M-CONFINED")
                     break
             elif pname == "split":
-                announced = int(m * cst.SPLIT_FACTOR * n_ref)
+                announced = int(m_now * cst.SPLIT_FACTOR * n_ref)
                 impossible = _impossible_splits(log, len(names))
-                tot, tot_ref = sum(e - s for s, e, _ in us), sum(e - s for s, e, _ in ref_units)
-                if abs(tot - tot_ref) > 1e-9 * max(1.0, tot_ref):
-                    ctx.fail("split-changed-the-total-annotated-duration", dict(det, total=tot, reference_total=tot_ref), monitor="M-CONFINED")
+                tot, tot_b = sum(e_ - s_ for s_, e_, _ in us), sum(e_ - s_ for s_, e_, _ in b)
+                if abs(tot - tot_b) > 1e-9 * max(1.0, tot_b):
+                    ctx.fail("split-changed-the-total-annotated-duration", dict(det, total=tot, total_before=tot_b), monitor="M-CONFINED")
                     break
-                if not (n_ref + announced - impossible <= len(us) <= n_ref + announced):
+                if not (len(b) + announced - impossible <= len(us) <= len(b) + announced):
                     ctx.fail("split-did-not-add-one-unit-per-announced-split", dict(det, announced=announced, exempted=impossible),
                              monitor="M-CONFINED")
                     break
-                if {l for _, _, l in us} - {l for _, _, l in ref_units}:
+                if {l for _, _, l in us} - {l for _, _, l in b}:
                     ctx.fail("split-changed-labels", det, monitor="M-CONFINED")
                     break
             elif pname == "false_neg":
-                if not set(us) <= set(ref_units):
-                    ctx.fail("false-negatives-added-or-changed-units", dict(det, extra=sorted(set(us) - set(ref_units))[:3]), monitor="M-CONFINED")
+                if not set(us) <= set(b):
+                    ctx.fail("false-negatives-added-or-changed-units", dict(det, extra=sorted(set(us) - set(b))[:3]), monitor="M-CONFINED")
                     break
             elif pname == "false_pos":
-                if not set(ref_units) <= set(us):
-                    ctx.fail("false-positives-removed-or-changed-units", dict(det, missing=sorted(set(ref_units) - set(us))[:3]),
+                if not set(b) <= set(us):
+                    ctx.fail("false-positives-removed-or-changed-units", dict(det, missing=sorted(set(b) - set(us))[:3]),
                              monitor="M-CONFINED")
                     break
             elif pname == "shift":
-                if len(us) != n_ref:
+                if len(us) != len(b):
                     ctx.fail("shift-changed-the-number-of-units", det, monitor="M-CONFINED")
                     break
-                if sorted(l for _, _, l in us) != sorted(l for _, _, l in ref_units):
+                if sorted(l for _, _, l in us) != sorted(l for _, _, l in b):
                     ctx.fail("shift-changed-labels", det, monitor="M-CONFINED")
                     break
+
+    for pname, fn in perturbations:
+        check_perturbation(pname, fn, fresh(), m, "")
+    # each perturbation applied to a corpus that another perturbation has already changed
+    for pname, fn in perturbations:
+        oname, ofn = ctx.rng.choice([p_ for p_ in perturbations if p_[0] != pname])
+        corpus = fresh()
+        try:
+            ofn(corpus)
+        except Exception as e:
+            ctx.fail_exc(f"{oname}:raises:{type(e).__name__}", e, monitor="M-CONFINED")
+            continue
+        check_perturbation(pname, fn, corpus, m, f" after {oname}")
     # all 32 flag combinations through corpus_shuffle
     for flags in itertools.product([False, True], repeat=5):
         shift, fpos, fneg, split, cat = flags
@@ -180,6 +199,24 @@ def check_case(ctx, case):
                 if got.get(a) != ref_units:
                     ctx.fail("corpus_shuffle:magnitude-0-is-not-an-exact-copy", {"what": what, "annotator": a}, monitor="M-MAGNITUDE-0")
                     break
+    # history on the SAME tool object: its public magnitude attribute is changed and everything is asked again
+    if case.get("then_magnitude") is not None:
+        m2 = case["then_magnitude"]
+        cst.magnitude = m2
+        ctx.count("M-MAGNITUDE-HISTORY")
+        for pname, fn in perturbations:
+            check_perturbation(pname, fn, fresh(), m2, f" (tool magnitude changed from {m} to {m2})")
+        if m2 == 0:
+            try:
+                corpus = cst.corpus_shuffle(case["annotators"] if not isinstance(case["annotators"], list) else list(case["annotators"]),
+                                            shift=True, false_pos=True, false_neg=True, split=True, cat_shuffle=True)
+                got = units_by_annotator(corpus)
+                ctx.count("M-MAGNITUDE-0")
+                if any(got.get(a) != ref_units for a in names):
+                    ctx.fail("corpus_shuffle:magnitude-0-is-not-an-exact-copy", {"what": "all flags, after the tool's magnitude was set to 0",
+                                                                                 "previous_magnitude": m}, monitor="M-MAGNITUDE-0")
+            except Exception as e:
+                ctx.fail_exc(f"corpus_shuffle:raises:{type(e).__name__}", e, monitor="M-CORPUS")
     d = monitors.diff_snap(before, monitors.snapshot_continuum(ref))
     if d:
         ctx.fail("reference-modified-by-the-shuffling-tool", {"diff": d, "extra_categories": extra}, monitor="M-CORPUS")
@@ -213,7 +250,8 @@ def gen_case(ctx):
     annotators = rng.choice([1, 2, 3, 5, ["x", "y"], ["b", "a", "c"], ["Martino", "Martingale"]])
     extra = rng.choice([None, None, ["extra1"], ["zz", "a"]])
     return {"reference": cspec, "magnitude": m, "annotators": annotators, "extra_categories": extra,
-            "include_ref": rng.random() < 0.5, "np_seed": rng.randrange(2 ** 31)}
+            "include_ref": rng.random() < 0.5, "np_seed": rng.randrange(2 ** 31),
+            "then_magnitude": rng.choice([None, 0.0, 0.0, rng.random()])}
 
 
 def run(ctx):
